@@ -163,18 +163,18 @@ def poolTicks (workers : Nat) (p : PoolBlocks) : Nat :=
   ((List.range workers).map fun i =>
     (strided workers i p.allocated).length + (strided workers i p.fresh).length).sum
 
-/-- `ObjectPool::reset(workers, handler)`: clamp, tick per deleted block, then
-    `next().reset(workers, handler)` **with the clamped value**. -/
+/-- `ObjectPool::reset(workers, handler)` (after the fix a65b5bf): clamp a local copy, tick per
+    deleted block, then `next().reset(workers_for_next, handler)` with the caller's value. -/
 def resetTicks : Nat → List PoolBlocks → Nat
   | _, [] => 0
-  | w, p :: ps => poolTicks (clamp w p) p + resetTicks (clamp w p) ps
+  | w, p :: ps => poolTicks (clamp w p) p + resetTicks w ps
 
-/-- the repaired version (clamp a local copy, pass the caller's `workers` down) -/
-def resetTicksFixed : Nat → List PoolBlocks → Nat
+/-- the formula BEFORE the fix: the clamped value (0 for an empty level) was passed down -/
+def resetTicksOld : Nat → List PoolBlocks → Nat
   | _, [] => 0
-  | w, p :: ps => poolTicks (clamp w p) p + resetTicksFixed w ps
+  | w, p :: ps => poolTicks (clamp w p) p + resetTicksOld (clamp w p) ps
 
-/-- no empty pool level precedes a non-empty one -/
+/-- no empty pool level precedes a non-empty one (the condition under which the OLD formula was complete) -/
 def resetGood : List PoolBlocks → Bool
   | [] => true
   | p :: ps => if p.blocks = 0 then numBlocks ps == 0 else resetGood ps
